@@ -3,6 +3,8 @@ package main
 // C17: Entry.Find for a list of (start position, path) queries on one processed module set.
 //
 //   find17 <opts> <n> (<namehex> <texthex>){n} <nq> (<start module hex> <nsteps> step* <path hex>){nq}
+//     opts: c, n as for process; l = after Process and after the module trees have been collected, load an unrelated
+//     module, a rejected text and a missing file WITHOUT calling Process again, then run the queries
 //     step = C<hex> (child of Dir) | I (RPC.Input) | O (RPC.Output); the start module may be a submodule
 //   output: JSON {"loads":[..], "runs":[dump after the queries], "find":[r1,...]}
 //     r = "<ctx>|<res>": ctx = name of the (sub)module whose text defines the start node (RootNode(e.Node), the
@@ -79,6 +81,14 @@ func runFind17(toks []string) string {
 				roots[e] = m.Name
 				byName[m.Name] = e
 			}
+		}
+		if strings.Contains(opts, "l") {
+			// late loads WITHOUT another Process: the trees collected above are the ones the caller holds; an
+			// unrelated module, a rejected text and a missing file must not un-process them
+			ms.Parse("module zz-late-load { namespace \"urn:zz-late-load\"; prefix zzl; container late { leaf l { type string; } } }", "zz-late-load.yang")
+			ms.Parse("module zz-late-bad { namespace \"urn:zz-late-bad\"; prefix zzb; leaf l { type string; } } frobnicate x;", "zz-late-bad.yang")
+			ms.Parse("module zz-late-broken { namespace ; ", "zz-late-broken.yang")
+			ms.Read("zz-no-such-module")
 		}
 		nq, _ := strconv.Atoi(toks[pos])
 		pos++
